@@ -187,7 +187,7 @@ def scale2F (k : Int) (s : TV) : Res TV :=
     cBinF .mul s p
   else
     powerValue2F s.1 (-k).toNat >>=! fun p =>
-    cBinF .div s p
+    if !(cLeF p (i32, 0)) then cBinF .div s p else .ill "scale: attempted operation will result in overflow"
 
 /-! ## integer helpers -/
 
